@@ -167,10 +167,10 @@ def tasks(tier, seed):
             part = vals[i::chunks]
             if part:
                 t.append(('sweep_pairs', dict(a_values=part, prefix_items=prefix)))
-    k = 3 if not full else 8
+    k = 6 if not full else 8
     for i in range(k):
-        t.append(('hyp_sets', dict(n=150 if not full else 1200, generated=False)))
-        t.append(('hyp_sets', dict(n=120 if not full else 1000, generated=True)))
+        t.append(('hyp_sets', dict(n=250 if not full else 1200, generated=False)))
+        t.append(('hyp_sets', dict(n=200 if not full else 1000, generated=True)))
     return t
 
 
